@@ -26,7 +26,7 @@ OBJECTIVE = {"golomb": "length_idx", "knapsack": "weight"}
 
 def rewrites_for(P, r, small):
     nv, nc = len(P["vidx"]), len(P["props"])
-    out = [{"kind": "unshare"}, {"kind": "dup", "q": r.randrange(nc)},
+    out = [{"kind": "unshare"}, {"kind": "incr"}, {"kind": "dup", "q": r.randrange(nc)},
            {"kind": "true", "q": r.randrange(4), "v": r.randrange(nv)}]
     perm = list(range(nc))
     r.shuffle(perm)
@@ -110,7 +110,8 @@ def c13(tier, seed, replay):
             varQ = x["perm"][x["var"]] if x["kind"] == "permv" else x["var"]
             items.append({"rid": x["rid"], "runs": [
                 {"P": x["P"], "cfg": {}, "mode": x["mode"], "var": x["var"]},
-                {"P": Q[x["rid"]], "cfg": cfgQ, "mode": x["mode"], "var": varQ}]})
+                {"P": Q[x["rid"]], "cfg": cfgQ, "mode": x["mode"], "var": varQ,
+                 "build": "incremental" if x["kind"] == "incr" else "constructor"}]})
         items.sort(key=lambda it: -len(json.dumps(it["runs"][0]["P"])))
         outs, killed = run_workers_resilient("rec_rewrites.py", [{"items": items[k::NCPU], "timeout": 60.0} for k in range(NCPU) if items[k::NCPU]],
                                              env, tmp, item_timeout=45.0 if tier == "quick" else 240.0)
